@@ -526,9 +526,12 @@ def history_case(draw, ctx):
     steps = []
     n = draw(st.integers(3, 8))
     for i in range(n):
-        op = draw(st.sampled_from(["shift_y", "scale_y", "shift_y", "scale_y", "smooth", "trend", "noise", "shift_x",
-                                   "scale_x"]))
-        if op == "shift_x":
+        op = draw(st.sampled_from(["shift_y", "shift_y", "scale_y", "scale_y", "scale_y", "smooth", "smooth", "smooth",
+                                   "trend", "noise", "shift_x", "scale_x", "restore_original"]))
+        if op == "restore_original":
+            xsim = [float(v) for v in case["x"]]
+            step = dict(op=op)
+        elif op == "shift_x":
             d = draw(st.one_of(st.integers(-64, 64).map(lambda k: k / 8.0), fl(-100.0, 100.0)))
             new = [v + d for v in xsim]
             if strict(new):
@@ -547,7 +550,7 @@ def history_case(draw, ctx):
         elif op == "shift_y":
             step = dict(op=op, arg=draw(st.one_of(st.sampled_from([1.0, -1.0, 0.5, 10.0, -3.0]), fl(-100.0, 100.0))))
         elif op == "scale_y":
-            step = dict(op=op, arg=draw(st.sampled_from([2.0, 0.5, -1.0, 3.0, 10.0, -0.1, 1.5])))
+            step = dict(op=op, arg=draw(st.sampled_from([2.0, 0.5, -1.0, 3.0, 10.0, -0.1, 1.5, -4.0, 0.25])))
         elif op == "smooth":
             step = dict(op=op, arg=draw(smoothing(zero_weight=1)))
         elif op == "trend":
@@ -588,6 +591,7 @@ def _history(ctx, case):
     xi, yi = inputs(case)
     w = Weaver(xi, yi)
     snaps = []
+    smooths = []
 
     def snapshot(tf, label):
         # only Python floats are kept: no reference to any array of the Weaver survives this call, so that the
@@ -613,6 +617,18 @@ def _history(ctx, case):
             elif op == "noise":
                 np.random.seed(step["seed"])
                 w.noise(step["arg"])
+            elif op == "restore_original":
+                w.restore_original()
+            elif op == "smooth":
+                # a judged step: the series just before the call is the input of the smoothing condition
+                xb = [float(v) for v in w.get()[0]]
+                yb = [float(v) for v in w.get()[1]]
+                ret = w.smooth(step["arg"])
+                if ret is not w:
+                    raise Violation("Weaver.smooth did not return self")
+                smooths.append(["smooth(%r) after %s" % (step["arg"], " > ".join(done) or "nothing"), step["arg"], xb,
+                                yb, np.asarray(w.get()[0], dtype=float).tolist(),
+                                np.asarray(w.get()[1], dtype=float).tolist()])
             else:
                 getattr(w, op)(step["arg"])
             done.append(op)
@@ -622,10 +638,24 @@ def _history(ctx, case):
         for label, xl, yl, probes, vs, vp in snaps:
             g = Weaver(np.array(xl), np.array(yl)).to_function()
             fresh.append(np.asarray(g(probes), dtype=float).tolist())
+        for rec in smooths:
+            fn = process.spline_smooth(np.array(rec[2]), np.array(rec[3]), rec[1])
+            rec.append(np.asarray(fn(np.array(rec[2])), dtype=float).tolist())
     if fp.warned:
         ctx.count("discarded_fitpack")
         return
     m = len(case["x"])
+    for label, s_val, xb, yb, xa, ya, direct in smooths:
+        if xa != xb:
+            raise Violation(f"{label} changed x or the length")
+        if len(ya) != len(yb) or not all(math.isfinite(v) for v in ya):
+            raise Violation(f"{label}: y has {len(ya)} samples instead of {len(yb)}, or non-finite values")
+        check_condition(ya, yb, s_val, label)
+        if s_val == 0:
+            check_close(ya, yb, tol_for(yb, 1e-8), label + " is not the identity")
+        if ya != direct:
+            raise Violation(f"{label} differs from spline_smooth(x, y, {s_val!r})(x) on copies of the series it was "
+                            f"applied to", detail=dict(maxdiff=max(abs(a - b) for a, b in zip(ya, direct))))
     for (label, xl, yl, probes, vs, vp), fr in zip(snaps, fresh):
         if len(xl) != m or len(yl) != m:
             raise Violation(f"{label}: the series has {len(xl)} / {len(yl)} samples instead of {m}")
@@ -638,6 +668,24 @@ def _history(ctx, case):
     ops = [s_["op"] for s_ in case["steps"]]
     cls |= {"op:" + o for o in ops}
     cls.add(f"to_function-calls:{min(len(snaps), 5)}{'+' if len(snaps) >= 5 else ''}")
+    cls.add(f"judged-smooth-steps:{min(len(smooths), 3)}{'+' if len(smooths) >= 3 else ''}")
+    seen = set()
+    for s_ in case["steps"]:
+        if s_["op"] == "smooth" and s_["arg"] != 0:
+            cls.add("smooth(s>0)")
+            if "scale_y" in seen:
+                cls.add("smooth(s>0) after scale_y(|c|!=1)")
+            if "restore_original" in seen:
+                cls.add("smooth(s>0) after restore_original")
+            if seen & {"trend", "noise", "smooth"}:
+                cls.add("smooth(s>0) after working != reference")
+        if s_["op"] == "scale_y" and abs(s_["arg"]) != 1:
+            seen.add("scale_y")
+            cls.add("scale_y:|c|>1" if abs(s_["arg"]) > 1 else "scale_y:|c|<1")
+            if s_["arg"] < 0:
+                cls.add("scale_y:negative")
+        elif s_["op"] in ("restore_original", "trend", "noise", "smooth", "shift_y"):
+            seen.add(s_["op"])
     # two calls separated by >= 2 steps that replace y but not x (the address-reuse pattern)
     last, y_only = None, 0
     if case["tf0"] is not None:
@@ -669,6 +717,8 @@ SUBCHECKS = [
     Sub("default_s", "hyp", default_body, strategy=default_case, quick=400, thorough=8000,
         clause="s omitted means s = len(y)*var(y)"),
     Sub("history", "hyp", history_body, strategy=history_case, quick=400, thorough=8000,
-        clause="to_function() taken repeatedly from ONE Weaver during a history of 3..8 steps passes through the "
-               "current get() samples every time and equals the spline of a fresh Weaver on the same samples"),
+        clause="during a history of 3..8 steps on ONE Weaver: to_function() passes through the current get() samples "
+               "every time and equals the spline of a fresh Weaver on the same samples; every smooth(s) step keeps x, "
+               "obeys the smoothing condition w.r.t. the series just before it, is the identity for s = 0 and equals "
+               "spline_smooth on copies of that series"),
 ]
